@@ -480,8 +480,14 @@ def _ready_engine(fl, rng, kind):
     cons = {"mamdani": ["M is m", "M is n", "M is m and M is n"], "sugeno": ["S is s", "S is t"], "tsukamoto": ["S is s", "S is t"],
             "hybrid": ["M is m and S is s", "S is t and M is n", "M is m", "S is s"]}[kind]
     outs = {"mamdani": [M], "sugeno": [S], "tsukamoto": [S], "hybrid": [M, S]}[kind]
+    # antecedents may read an output variable (the activation of that term accumulated so far, aggregated with the variable's operator or - none being needed
+    # by a weighted defuzzifier - by plain summation)
+    if M in outs:
+        ants = ants + ["M is m", "A is high and M is n", "M is m or B is low"]
+    if S in outs:
+        ants = ants + ["S is s", "A is high and S is t", "S is s or B is low"]
     act = rng.choice([fl.General(), fl.General(), fl.First(2, 0.0), fl.Last(1, 0.1), fl.Highest(2), fl.Lowest(1), fl.Proportional(), fl.Threshold(">=", 0.2)])
-    rules = [fl.Rule.create(f"if {rng.choice(ants)} then {rng.choice(cons)}") for _ in range(rng.randrange(1, 4))]
+    rules = [fl.Rule.create(f"if {rng.choice(ants)} then {rng.choice(cons)}") for _ in range(rng.randrange(1, 5))]
     rb = fl.RuleBlock(name="rb", conjunction=fl.Minimum(), disjunction=fl.Maximum(), implication=fl.Minimum(), activation=act, rules=rules)
     for ov in outs:       # the readiness check says nothing about these settings: a ready engine must process with any of them
         ov.lock_previous = rng.random() < 0.4
